@@ -407,7 +407,15 @@ def do_parse(p, case, tmpdir=None):
     entry = case["entry"]
     try:
         if entry == "args":
-            cfg = p.parse_args(list(case.get("argv", [])))
+            argv = list(case.get("argv", []))
+            for g, content in (case.get("gfile") or {}).items():     # a group given as a config file (keeps __path__)
+                _MOD["n"] = _MOD.get("n", 0) + 1
+                d = os.path.join(_MOD["dir"], "gf%d" % _MOD["n"])
+                os.mkdir(d)
+                with open(os.path.join(d, g + ".json"), "w") as f:
+                    f.write(json.dumps(content))
+                argv = ["--%s=%s" % (g, os.path.join(d, g + ".json"))] + argv
+            cfg = p.parse_args(argv)
         elif entry == "string":
             cfg = p.parse_string(json.dumps(case.get("config", {})))
         elif entry == "path":
@@ -551,7 +559,9 @@ def recompute(l, spec, root):
 
 def drop_cfg(cfg):
     """the configuration without the entry of the config-file option itself"""
-    c = cfg.clone()
+    from jsonargparse._namespace import strip_meta
+
+    c = strip_meta(cfg.clone())
     c.pop("cfg", None)
     return c
 
@@ -693,6 +703,15 @@ def oracle(case, deep=True):
                                 fail("link target %s appears in the file written by save(multifile=%s)" % (l["target"], multifile))
                             if item_hit:
                                 fail("link target %s appears in the list items written by save" % l["target"], F_LIST)
+                        for fn in os.listdir(d):
+                            if fn == "saved.yaml":
+                                continue
+                            with open(os.path.join(d, fn)) as f:
+                                sub = yaml.safe_load(f.read())
+                            g = fn.rsplit(".", 1)[0]
+                            for l in links:
+                                if l["target"].startswith(g + ".") and isinstance(sub, dict) and dig(sub, l["target"][len(g) + 1:])[0]:
+                                    fail("link target %s appears in the sub-file %s written by save" % (l["target"], fn))
                     except Exception as ex:  # noqa: BLE001
                         fail("save(multifile=%s) of a parsed configuration raises %s: %s" % (multifile, exc_class(ex), str(ex)[:120]), set_attr)
                     finally:
@@ -1018,6 +1037,13 @@ def gen_case(rng, spec):
             merged.append(rest.pop(0))
     case = {"spec": spec, "entry": entry}
     feed_argv = []
+    gfeed = []
+    if entry == "args" and not subname and rng.random() < 0.3:
+        for g in lspec.get("groups", []):
+            if GROUPS[g][0] in ("class", "dataclass") and rng.random() < 0.7:
+                content = {f: rng.randint(0, 30) for f in GROUPS[g][2] if rng.random() < 0.6}
+                case.setdefault("gfile", {})[g] = content
+                gfeed = [["config", "%s.%s" % (g, f), v] for f, v in content.items()] + gfeed
     if entry == "args":
         seq = [(toks, [["argv", k, v]] if k is not None else []) for toks, k, v in merged]
         cfg_tok = None
@@ -1041,7 +1067,7 @@ def gen_case(rng, spec):
     if env:
         case["env"] = env
     chan = "object" if entry == "object" else "config"
-    case["feed"] = [["env", k, v] for k, v in feed_env] + [[chan, k, v] for k, v in feed_cfg] + feed_argv
+    case["feed"] = [["env", k, v] for k, v in feed_env] + [[chan, k, v] for k, v in feed_cfg] + gfeed + feed_argv
     return case
 
 
@@ -1273,6 +1299,11 @@ def shrink_case(case, still_bad, budget=40):
         for k in list(c.get("env", {})):
             d = copy.deepcopy(c)
             del d["env"][k]
+            d.pop("feed", None)
+            yield d
+        for k in list((c.get("gfile") or {})):
+            d = copy.deepcopy(c)
+            del d["gfile"][k]
             d.pop("feed", None)
             yield d
         for k in list((c.get("config") or {})):
